@@ -290,12 +290,14 @@ type SendScript struct {
 // ViewStats converts a tree into the STAT sequence a conforming walk exposes.
 func ViewStats(t model.Tree) []*types.Stat {
 	tt := t.Clone()
-	tt.Canon(func(e *model.Entry) string {
+	// (Canon rewrites Group while it runs: take the keys first)
+	keys := map[string]string{}
+	for _, e := range tt {
 		if e.Group != 0 {
-			return fmt.Sprint(e.Group)
+			keys[e.Path] = fmt.Sprint(e.Group)
 		}
-		return ""
-	})
+	}
+	tt.Canon(func(e *model.Entry) string { return keys[e.Path] })
 	out := make([]*types.Stat, len(tt))
 	for i := range tt {
 		e := &tt[i]
